@@ -36,4 +36,6 @@ if __name__ == '__main__':
     rc = 2
   sys.stdout.flush()
   sys.stderr.flush()
+  from harness import common
+  common.cleanup_private_driver()
   os._exit(rc)
